@@ -3,7 +3,7 @@
 From Coq Require Import ZArith NArith List Bool Permutation Reals.
 From Coq Require Import Floats.SpecFloat.
 From Flocq Require Import Core.Defs Core.Raux IEEE754.BinarySingleNaN.
-From RlibV Require Import C14.Model C14.Corr C14.Spec C14.ProofsInt C14.ProofsLcg C14.ProofsShuffle C14.ProofsFloat C14.ProofsFloatR.
+From RlibV Require Import C14.Model C14.Corr C14.Spec C14.ProofsInt C14.ProofsLcg C14.ProofsShuffle C14.ProofsFloat C14.ProofsFloatR C14.ProofsCorr.
 Import ListNotations.
 Open Scope Z_scope.
 
@@ -96,6 +96,11 @@ Proof. exact float_in_range_R. Qed.
 Theorem c14_float_unit_in_0_1 :
   forall raw : Z, 0 <= raw < 2 ^ 64 -> exists u : binary_float 53 1024, f_unit raw = B2SF u /\ is_finite u = true /\ B2R u = (IZR (raw / 2 ^ 11) * / IZR (2 ^ 53))%R /\ (0 <= B2R u < 1)%R.
 Proof. exact float_unit_exact. Qed.
+
+(** correspondence corollary: on every case in scope (Corr.in_scope: valid width and bounds, equally long copies, a slice of at most 2^64 elements; the aperiodicity test of long streams and the all-orders coverage of a seed list are kept as hypotheses, everything else is unconditional), if what the real crate returned equals what the model computes then it satisfies the model-independent specification: draws in range / panic exactly on empty ranges, reachability sweeps, start <= x < end on decoded bit patterns, u64 raws, stream length and membership, equal copies, shuffle results are permutations and panic only on an exhausted script; no axioms *)
+Theorem c14_model_check_spec_check :
+  forall c : case, in_scope c = true -> model_check c = true -> spec_check c = true.
+Proof. exact model_check_spec_check. Qed.
 
 (** the two real-number statements above as ONE pinned theorem (see the note in checks/c14.py: the audit parser allows axioms only in the last pin) *)
 Theorem c14_float_real_statements :
